@@ -186,7 +186,23 @@ def args_body(c):
     elif lowp == "w":
         w0 = w0.astype(onp.float32)
 
+    prior_failure = c.chance(1, 6)  # the function first tries a nested differentiation that raises, catches it, and carries on
+
+    class _Stop(Exception):
+        pass
+
+    def _failing(y):
+        t_ = anp.sin(y) * 2.0
+        if t_ == t_:
+            raise _Stop()
+        return t_
+
     def core(x, w, p, scale, ns=anp):
+        if prior_failure and ns is anp:
+            try:
+                autograd.grad(_failing)(0.3)
+            except _Stop:
+                pass
         ax, ew = ns.sum(A * x), ns.sum(E * w)
         return scale * p * (ns.sin(ax) + ns.sum(B * x * x) + ns.sum(U * x) * ns.sum(V * w) + ns.sum(D * w * w) + ns.sin(ew))
 
@@ -219,7 +235,7 @@ def args_body(c):
     which = c.choice(["x", "w"])
     argnum, g1, H1, s1, z0 = (ix, gx, Hxx, sx, x0) if which == "x" else (iw, gw, Hww, sw, w0)
     a = args(x0, w0)
-    sample = {"sx": list(sx), "sw": list(sw), "layout": layout, "op": op, "which": which, "kw": kw, "vseed": vseed, "float32_arg": lowp}
+    sample = {"sx": list(sx), "sw": list(sw), "layout": layout, "op": op, "which": which, "kw": kw, "vseed": vseed, "float32_arg": lowp, "prior_failure": prior_failure}
     bucket = lambda k: f"C16|args|{op}|{k}"
     v = values.direction(vseed, s1, 6)
     n1 = len(s1)
@@ -281,6 +297,13 @@ def args_body(c):
             f1 = lambda *aa, **kk: anp.reshape(fun(*aa, **kk), (1,))
             got = do.make_ggnvp(f1, f_argnum=argnum)(*a, **kw)(v)
             checks.append((got, g1 * onp.sum(g1 * v), "make_ggnvp(f_argnum)"))
+            # f that hands the selected argument through unchanged (J = I): the product is the Hessian-vector product of g alone
+            gg = lambda y: anp.sum(anp.sin(y) * U) if which == "x" else anp.sum(anp.sin(y) * V)
+            Hg = -onp.sin(z0) * (U if which == "x" else V)
+            checks.append((do.make_ggnvp(lambda t: t, gg)(z0)(v), Hg * v, "make_ggnvp(identity f, custom g)"))
+            checks.append((do.make_ggnvp(lambda p_, t: t, gg, 1)(0.5, z0)(v), Hg * v, "make_ggnvp(f returns its argument 1, f_argnum=1)"))
+            if n1 == 1:  # (the default g reduces the last axis only: a scalar for vectors)
+                checks.append((do.make_ggnvp(lambda t: t)(z0)(v), v, "make_ggnvp(identity f, default g)"))
         elif op == "make_jvp_reversemode":
             checks.append((do.make_jvp_reversemode(fun, argnum)(*a, **kw)(v), onp.sum(g1 * v), "make_jvp_reversemode(argnum)"))
         else:
